@@ -73,7 +73,7 @@ def NoDot (s : String) : Prop := '.' ∉ s.toList
 
 theorem toList_dot : (".":String).toList = ['.'] := rfl
 
-theorem rsplitDot_nodot (s : String) (h : NoDot s) : rsplitDot s = none := by
+private theorem rsplitDot_nodot (s : String) (h : NoDot s) : rsplitDot s = none := by
   simp [rsplitDot, rfindDot_nodot _ h]
 
 /-- `rsplit_once('.')` of `x ++ "." ++ short` when `short` has no dot. -/
@@ -144,10 +144,10 @@ theorem Name.wf_iff (n : Name) : n.WF ↔ ∃ s, n = Name.ofFq s := by
   · rintro ⟨s, rfl⟩; exact Name.ofFq_wf s
 
 
-theorem nonEmpty_of_ne (x : String) (h : x ≠ "") : nonEmpty x = some x := by
+private theorem nonEmpty_of_ne (x : String) (h : x ≠ "") : nonEmpty x = some x := by
   simp [nonEmpty, String.isEmpty_iff, h]
 
-theorem nonEmpty_empty : nonEmpty "" = none := rfl
+private theorem nonEmpty_empty : nonEmpty "" = none := rfl
 
 theorem nonEmpty_ne (x y : String) (h : nonEmpty x = some y) : y ≠ "" ∧ y = x := by
   unfold nonEmpty at h
@@ -637,7 +637,7 @@ theorem foldl_max_ge (l : List Nat) (a : Nat) : a ≤ l.foldl max a := by
   | nil => exact Nat.le_refl _
   | cons x xs ih => exact Nat.le_trans (Nat.le_max_left _ _) (ih _)
 
-theorem le_foldl_max (l : List Nat) (a x : Nat) (hx : x ∈ l) : x ≤ l.foldl max a := by
+private theorem le_foldl_max (l : List Nat) (a x : Nat) (hx : x ∈ l) : x ≤ l.foldl max a := by
   induction l generalizing a with
   | nil => cases hx
   | cons y ys ih =>
@@ -1168,7 +1168,7 @@ theorem cycMeasure_mono (S : SchemaMut) {cs cs' : CycleState} (h : CycLe cs cs')
     · exact hx.1.2 h'
     · exact hx.2 h'
 
-theorem isRecord_lt (S : SchemaMut) (k : Nat) (h : isRecord S k = true) : k < S.size := by
+private theorem isRecord_lt (S : SchemaMut) (k : Nat) (h : isRecord S k = true) : k < S.size := by
   unfold isRecord at h
   split at h
   next heq => exact (Array.getElem?_eq_some_iff.mp heq).1
